@@ -16,12 +16,9 @@ file = keys of a freshly opened artifact; refused operations leave keys, file tr
 were; a load under filter terms returns a sub-list of the rows (and a subset of the columns) of the
 unfiltered load, and terms on columns that exist nowhere change nothing.
 
-Input classes with a recorded finding get their own stable signature (and only they):
+The input class with a recorded finding gets its own stable signature (and only it):
   nested-key-paths      the failing key's HDF path is a prefix / extension of the path of another key that a
-                        write / replace / remove of the history addressed (F12)
-  unstorable-frame      the failing key was the target of a write / replace whose value is a pandas object
-                        hdf.write refuses (no rows; a column HDFStore.put cannot serialise)
-  keyspace-node-as-key  a remove / replace addressed the bookkeeping key "metadata.keyspace" itself
+                        write / replace / remove of the history addressed, or of metadata.keyspace (F12)
 """
 from __future__ import annotations
 
@@ -208,40 +205,74 @@ def term_cols(t) -> set:
 
 
 # --------------------------------------------------------------------------------------------- implementation
-def _observe(art, path, mode, ident):
+def _digest(path):
+    import hashlib
+    with open(path, "rb") as f:
+        return hashlib.md5(f.read()).hexdigest()
+
+
+def _observe(art, path, mode, ident, memo=None):
+    """keys, hdf.get_keys, bare groups, a second Artifact on the path, load of every reported key.
+    `memo` (unless the case asks for full observations): what is a function of the file's bytes alone
+    (everything but art.keys and loads through `art`) is re-used while the bytes have not changed."""
     from vivarium.framework.artifact import Artifact, hdf
     import tables
     o = {"keys": [str(k) for k in art.keys]}
-    o["file"] = sorted(str(k) for k in hdf.get_keys(path))
-    groups = []
-    with tables.open_file(path) as f:
-        for g in f.walk_groups("/"):
-            ps = g._v_pathname.strip("/").split("/")
-            if g._v_pathname == "/" or len(ps) not in (2, 3) or any(x.startswith("_i_") or x == "meta" for x in ps):
-                continue
-            if "table" in g._v_children:      # the group of a pandas storer: a data node, not a bare group
-                continue
-            groups.append(".".join(ps))
-    o["groups"] = sorted(groups)
-    try:
-        fresh = Artifact(path)
-        o["fresh"] = [str(k) for k in fresh.keys]
-    except Exception as e:  # noqa: BLE001
+    reuse = None
+    if memo is not None and memo.get("h") is not None and memo["h"] == _digest(path):
+        reuse = memo["obs"]
+    if reuse is not None:
+        o["file"], o["groups"], o["fresh"] = list(reuse["file"]), list(reuse["groups"]), reuse["fresh"]
+        if "fresh_exc" in reuse:
+            o["fresh_exc"] = reuse["fresh_exc"]
         fresh = None
-        o["fresh"] = "err"
-        o["fresh_exc"] = type(e).__name__
+    else:
+        o["file"] = sorted(str(k) for k in hdf.get_keys(path))
+        groups = []
+        with tables.open_file(path) as f:
+            for g in f.walk_groups("/"):
+                ps = g._v_pathname.strip("/").split("/")
+                if g._v_pathname == "/" or len(ps) not in (2, 3) or any(x.startswith("_i_") or x == "meta" for x in ps):
+                    continue
+                if "table" in g._v_children:      # the group of a pandas storer: a data node, not a bare group
+                    continue
+                groups.append(".".join(ps))
+        o["groups"] = sorted(groups)
+        h_before = _digest(path) if memo is not None else None
+        try:
+            fresh = Artifact(path)
+            o["fresh"] = [str(k) for k in fresh.keys]
+        except Exception as e:  # noqa: BLE001
+            fresh = None
+            o["fresh"] = "err"
+            o["fresh_exc"] = type(e).__name__
     loads = {}
     for k in o["keys"]:
         if k == KS:
             continue
-        if mode == "fresh" and fresh is None:
+        if mode == "fresh" and o["fresh"] == "err":
             loads[k] = "nofresh"
             continue
+        if mode == "fresh" and reuse is not None and k in reuse["fresh_loads"]:
+            loads[k] = reuse["fresh_loads"][k]
+            continue
+        if mode == "fresh" and fresh is None:
+            fresh = Artifact(path)
         try:
             loads[k] = ident((art if mode == "self" else fresh).load(k))
         except Exception:  # noqa: BLE001
             loads[k] = "err"
     o["loads"] = loads
+    if memo is not None:
+        fl = dict(reuse["fresh_loads"]) if reuse is not None else {}
+        if mode == "fresh":
+            fl.update(loads)
+        memo["obs"] = {"file": o["file"], "groups": o["groups"], "fresh": o["fresh"], "fresh_loads": fl}
+        if "fresh_exc" in o:
+            memo["obs"]["fresh_exc"] = o["fresh_exc"]
+        h_after = _digest(path)
+        # a second Artifact that repaired the file (no key space node) invalidates what was read before it
+        memo["h"] = h_after if reuse is not None or h_after == h_before else None
     return o
 
 
@@ -262,7 +293,8 @@ def _run(case):
 
         art = Artifact(path)
         mode = case["probe"]
-        out = {"init": _observe(art, path, mode, ident), "ops": []}
+        memo = None if case.get("fullobs") else {}
+        out = {"init": _observe(art, path, mode, ident, memo), "ops": []}
         for op in case["ops"]:
             rec = {"out": "ok"}
             try:
@@ -299,7 +331,7 @@ def _run(case):
                     raise
                 rec["out"] = "err"
                 rec["exc"] = type(e).__name__
-            rec["obs"] = _observe(art, path, mode, ident)
+            rec["obs"] = _observe(art, path, mode, ident, memo)
             out["ops"].append(rec)
         return out
     finally:
@@ -317,12 +349,12 @@ class C19(Prop):
                  "with the model after every operation")
     partial = ("HDF5 / PyTables / pandas.HDFStore round-trip fidelity and their tree semantics (recursive put / remove_node, "
                "filenode refusing an occupied path) are I/O: modelled in Lean, explored by the harness, not proved; "
-               "ops_K / refinement are proved under the hypothesis that no key's HDF path is a prefix of another's (F12), "
-               "that no operation addresses metadata.keyspace itself and (refinement, rejected_unchanged) that no value is "
-               "a pandas object the HDF layer refuses")
+               "ops_K and the refinement are proved under the hypothesis that no key's HDF path is a prefix of another's (F12); "
+               "'refused operations change nothing' is proved for the content (key -> data map, key set, K) always, and for the "
+               "whole state except where a refused pandas value moves the key to the end of the key list / leaves a parent group")
     trusted_extra = ["PyTables/HDF5 and pandas.HDFStore as a tree of groups and leaves (Model/Artifact.lean doc-comment); "
                      "table_view() in vcheck/props/c19.py: which columns of a stored pandas object a `where` term can address"]
-    n_quick = 64
+    n_quick = 48
     n_thorough = 700
     workers = 8
     case_timeout = 120
@@ -411,7 +443,6 @@ class C19(Prop):
     def generate(self, rng: random.Random, i: int, tier: str):
         nested = rng.random() < 0.35
         pool = rng.sample(FLAT, rng.randint(2, 4)) + (rng.sample(NEST, rng.randint(2, 4)) if nested else [])
-        findings = rng.random() < 0.12          # pandas values the HDF layer refuses (recorded finding)
         data, ops, have = [], [], []            # `have`: keys the generator believes are present (bias only)
 
         def D(spec):
@@ -431,7 +462,7 @@ class C19(Prop):
             if k not in have:
                 have.append(k)
 
-        n_ops = rng.randint(5, 25)
+        n_ops = rng.choice([5, 6, 7, 8, 9, 10, 10, 11, 12, 12, 13, 14, 15, 16, 18, 20, 22, 25])
         do_write()
         while len(ops) < n_ops:
             r = rng.random()
@@ -477,7 +508,7 @@ class C19(Prop):
                     if k not in have:
                         have.append(k)
             else:              # the stream of operations that must be refused
-                s = rng.randint(0, 11)
+                s = rng.randint(0, 15)
                 if s == 0:
                     ops.append(["write", present(), D(self._good(rng))])                      # duplicate write
                 elif s == 1:
@@ -500,17 +531,27 @@ class C19(Prop):
                     ops.append(["write", absent(), D({"t": "unser", "v": rng.choice(["set", "object", "nested", "bytes", "key"])})])
                 elif s == 10:
                     ops.append(["replace", present(), D({"t": "unser", "v": rng.choice(["set", "object", "nested", "bytes", "key"])})])
-                else:
+                elif s == 11:
                     ops.append(["write", absent(), D({"t": "zerorow", "v": rng.choice(["df", "cols", "series", "indexed"])})])
-            if findings and rng.random() < 0.15:
-                bad = (D({"t": "zerorow", "v": rng.choice(["df", "cols", "series", "indexed"])}) if rng.random() < 0.5
-                       else D({"t": "badframe", "v": rng.choice(["sets", "mixed"])}))
-                ops.append([rng.choice(["write", "replace"]), present() if rng.random() < 0.6 else absent(), bad])
-        if rng.random() < 0.04:   # the bookkeeping key as a target (recorded finding); poisons everything after it
-            kind = rng.choice(["remove", "replace", "load", "write"])
-            op = [kind, KS] + ([D(self._good(rng))] if kind in ("replace", "write") else [])
-            ops.insert(rng.randint(max(1, len(ops) - 4), len(ops)), op)
-        return {"probe": rng.choice(["self", "fresh"]), "data": data, "ops": ops}
+                elif s == 12:      # a pandas value the HDF layer refuses must not cost the key its data
+                    k = present()
+                    bad = (D({"t": "zerorow", "v": rng.choice(["df", "cols", "series", "indexed"])}) if rng.random() < 0.5
+                           else D({"t": "badframe", "v": rng.choice(["sets", "mixed"])}))
+                    ops += [["replace", k, bad], ["load", k]]
+                elif s == 13:      # ... nor leave anything behind that blocks the key
+                    k = absent()
+                    ops += [["write", k, D({"t": "badframe", "v": rng.choice(["sets", "mixed"])})],
+                            ["write", k, D({"t": "json", "v": self._json(rng)})]]
+                    if k not in have:
+                        have.append(k)
+                elif s == 14:      # the bookkeeping key is not the user's
+                    ops.append(["remove", KS] if rng.random() < 0.5 else ["replace", KS, D(self._good(rng))])
+                else:
+                    ops.append(["write", KS, D(self._good(rng))] if rng.random() < 0.5 else ["load", KS])
+        case = {"probe": rng.choice(["self", "fresh"]), "data": data, "ops": ops}
+        if tier == "thorough" or rng.random() < 0.2:
+            case["fullobs"] = True        # observe from scratch after every operation (no re-use while the file's bytes are unchanged)
+        return case
 
     def boundary(self):
         J = lambda v: {"t": "json", "v": v}                                    # noqa: E731
@@ -524,16 +565,24 @@ class C19(Prop):
         Z = {"t": "zerorow", "v": "df"}
         B = {"t": "badframe", "v": "sets"}
         out = []
-        # every operation kind, every refusal kind, both probe modes, on separated keys
+        # every refusal kind on separated keys (JSON only: cheap), both probe modes
+        JD = J({"a": [1, 2, {"b": None}], "c": "x", "d": 1.5, "e": True})
         for mode in ("self", "fresh"):
-            out.append({"probe": mode, "data": [J({"a": [1, 2, {"b": None}], "c": "x", "d": 1.5, "e": True}), F, E, S, J([1]), U, F1, Z, E1],
-                        "ops": [["write", "x.y", 0], ["write", "x.y", 4], ["write", "p.q.r", 1], ["load", "p.q.r"], ["write", "p.q.s", 2],
-                                ["write", "m.n", 3], ["reopen"], ["load", "x.y"], ["load", "m.n"], ["load", "p.q.s"],
-                                ["write", "t.u", None], ["write", "t", 4], ["write", "a.b.c.d", 4], ["write", "a..b", 4], ["write", "", 4],
-                                ["write", "t.u", 5], ["write", "t.u", 4], ["remove", "n.o"], ["replace", "n.o", 4], ["load", "n.o"],
-                                ["replace", "x.y", None], ["replace", "x.y", 5], ["replace", "p.q.r", 6], ["load", "p.q.r"], ["clear"],
-                                ["load", "p.q.r"], ["remove", "p.q.s"], ["load", "p.q.s"], ["write", "p.q.s", 8], ["write", "z.z", 7],
-                                ["remove", "x.y"], ["write", "x.y", 1], ["load", "x.y"], ["load", KS], ["write", KS, 4], ["reopen"]]})
+            out.append({"probe": mode, "data": [JD, J([1]), U, Z, J("s")],
+                        "ops": [["write", "x.y", 0], ["write", "x.y", 1], ["write", "t.u", None], ["write", "t", 1], ["write", "a.b.c.d", 1],
+                                ["write", "a..b", 1], ["write", "", 1], ["write", "t.u", 2], ["write", "t.u", 1], ["remove", "n.o"],
+                                ["replace", "n.o", 1], ["load", "n.o"], ["replace", "x.y", None], ["replace", "x.y", 2], ["write", "z.z", 3],
+                                ["remove", "a"], ["load", ""], ["replace", "a.b.", 1], ["load", "x.y"], ["load", KS], ["write", KS, 1],
+                                ["remove", "x.y"], ["write", "x.y", 4], ["load", "x.y"], ["reopen"], ["load", "x.y"]]})
+        # every data shape: write, reopen, load, replace by another shape, clear, load, remove, write again
+        for mode, shapes in (("self", [F, E, S]), ("fresh", [F1, E1, JD])):
+            ops = []
+            for j, _ in enumerate(shapes):
+                k = ["p.q.r", "p.q.s", "m.n"][j]
+                ops += [["write", k, j], ["load", k]]
+            ops += [["reopen"], ["load", "p.q.r"], ["load", "m.n"], ["replace", "p.q.r", 1], ["load", "p.q.r"], ["clear"], ["load", "p.q.r"],
+                    ["remove", "p.q.s"], ["load", "p.q.s"], ["write", "p.q.s", 2], ["load", "p.q.s"]]
+            out.append({"probe": mode, "data": shapes, "ops": ops})
         # stale cache candidates: load, replace / remove + write, load again
         out.append({"probe": "fresh", "data": [J([1]), J([2]), F, F1],
                     "ops": [["write", "c.d", 0], ["load", "c.d"], ["replace", "c.d", 1], ["load", "c.d"], ["remove", "c.d"],
@@ -557,15 +606,18 @@ class C19(Prop):
                     "ops": [["write", "a.b", 0], ["write", "a.b.c", 1], ["write", "a.b.c", 2], ["remove", "a.b"], ["write", "a.b.c", 1],
                             ["write", "a.b", 0], ["remove", "a.b.c"], ["write", "a.b", 0], ["write", "a.b", 2],
                             ["write", "metadata.keyspace.x", 0], ["write", "metadata.x", 0]]})
-        # pandas values the HDF layer refuses (recorded finding `unstorable-frame`)
+        # pandas values the HDF layer refuses: the key keeps its data, nothing is left behind (F19, repaired)
         out.append({"probe": "fresh", "data": [J([1]), Z, B, J([2]), F1],
                     "ops": [["write", "u.v", 0], ["write", "u.w", 1], ["replace", "u.v", 1], ["write", "u.v", 3], ["write", "u.z", 2],
                             ["write", "u.z", 3], ["write", "u.z", 4], ["replace", "u.z", 2], ["write", "u.q.r", 2], ["write", "u.q.r", 0]]})
-        # the bookkeeping key as a target (recorded finding `keyspace-node-as-key`)
+        # the bookkeeping key as a target: refused (F20, repaired)
         out.append({"probe": "fresh", "data": [J([1]), J([2])],
                     "ops": [["write", "k.l", 0], ["replace", KS, 1], ["load", KS], ["write", "k.m", 1], ["remove", KS], ["write", "k.n", 1],
                             ["remove", "k.l"], ["reopen"], ["write", KS, 0], ["reopen"]]})
         out.append({"probe": "self", "data": [J([1])], "ops": [["remove", KS], ["write", "k.l", 0], ["reopen"]]})
+        for c in out:
+            if not any(op[0] == "fload" for op in c["ops"]):
+                c["fullobs"] = True
         return out
 
     def shrink(self, case):
@@ -700,16 +752,11 @@ class C19(Prop):
     # ------------------------------------------------------------------ oracle (the property itself)
     def _sig(self, case, upto, key, base):
         """stable signature of a failure about `key` observed after op #upto (see module doc-comment)"""
-        hist = case["ops"][:upto + 1]
-        if any(op[0] in ("remove", "replace") and op[1] == KS for op in hist):
-            return "keyspace-node-as-key"
-        if key is not None:
+        if key is not None and well_formed(key):
+            hist = case["ops"][:upto + 1]
             touched = [op[1] for op in hist if op[0] in MUTATING and well_formed(op[1])] + [KS]
-            if well_formed(key) and any(related(key, k2) for k2 in touched):
+            if any(related(key, k2) for k2 in touched):
                 return "nested-key-paths"
-            if any(op[0] in ("write", "replace") and op[1] == key and op[2] is not None
-                   and case["data"][op[2]]["t"] in ("zerorow", "badframe") for op in hist):
-                return "unstorable-frame"
         return base
 
     def oracle(self, case, obs):
@@ -799,8 +846,11 @@ class C19(Prop):
                 what = f"{'refused ' if not accepted else ''}{kind}"
                 for k, msg in self._changes(prev, o).items():
                     fail(i, k, base, f"{what}: {msg}")
-                if o["groups"] != prev["groups"]:
-                    fail(i, key, base, f"{what}: bare groups of the file were {prev['groups']} now {o['groups']}")
+                # bare groups: the parent group /type/name of a three-part key may be created by a refused write
+                own = lambda g: key is not None and well_formed(key) and parts(g) != parts(key) and parts(key)[:len(parts(g))] == parts(g)   # noqa: E731
+                g0, g1 = [g for g in prev["groups"] if not own(g)], [g for g in o["groups"] if not own(g)]
+                if g0 != g1:
+                    fail(i, key, base, f"{what}: bare groups of the file were {g0} now {g1}")
             if kind in MUTATING and accepted and not must_reject:
                 exp = new_exp
             check_state(i, o, exp)
@@ -824,8 +874,8 @@ class C19(Prop):
                 continue
             for k in sorted(set(a) ^ set(b)):
                 ch.setdefault(k, f"{name}: {k} {'appeared' if k in b else 'disappeared'}")
-            if set(a) == set(b):
-                ch.setdefault(None, f"{name} reordered: {a} -> {b}")
+            if set(a) == set(b) and sorted(a) != sorted(b):
+                ch.setdefault(None, f"{name}: a key is repeated: {a} -> {b}")
         for k in sorted(set(prev["loads"]) | set(o["loads"])):
             if prev["loads"].get(k) != o["loads"].get(k) and k in prev["loads"] and k in o["loads"]:
                 ch.setdefault(k, f"load({k}): {prev['loads'].get(k)} -> {o['loads'].get(k)}")
@@ -886,13 +936,15 @@ class C19(Prop):
                     dk = "frame-empty-indexed" if not spec["cols"] else ("frame-multiindex" if len(spec["names"]) > 1 else "frame-single-index")
                 t.append("data:" + dk)
                 if not ok:
-                    why = ("duplicate" if kind == "write" and key in listed else "missing-key" if kind == "replace" and key not in listed
+                    why = ("bookkeeping-key" if key == KS else "duplicate" if kind == "write" and key in listed
+                           else "missing-key" if kind == "replace" and key not in listed
                            else "none-data" if spec is None else "malformed-key" if not well_formed(key)
                            else "unserialisable" if spec["t"] == "unser" else "zero-row-frame" if spec["t"] == "zerorow"
                            else "unstorable-frame" if spec["t"] == "badframe" else "path-conflict")
                     t.append(f"refusal:{kind}:{why}")
             if kind in ("remove", "load") and not ok:
-                t.append(f"refusal:{kind}:" + ("malformed-key" if not well_formed(key) else "missing-key" if key not in listed else "dangling-key"))
+                t.append(f"refusal:{kind}:" + ("malformed-key" if not well_formed(key) else "bookkeeping-key" if key == KS
+                                               else "missing-key" if key not in listed else "dangling-key"))
             if kind == "fload":
                 t.append("fload:" + ("ctor-refused" if out == "ctor-err" else "missing" if out == "err" else "json" if out[0] == "data" else "table"))
                 for term in op[2]:
